@@ -1,5 +1,6 @@
 import SimilarVerif.Lemmas.Remap
 import SimilarVerif.Lemmas.Helpers
+import SimilarVerif.Lemmas.SliceHelper
 /-!
 # C17 — remapped slices are the original substrings and reconstruct both texts
 
@@ -97,6 +98,24 @@ example : ∀ alg : Alg, utilsDiffRemap alg [97, 98, 32, 99] [97, 98, 32, 100] [
 
 example : ∀ alg : Alg, utilsDiffLines alg [97, 98, 32, 99] [97, 98, 32, 100] [(0, 2), (2, 3), (3, 4)] [(0, 2), (2, 3), (3, 4)] {} =
     .ok [(.equal, [97, 98]), (.equal, [32]), (.delete, [99]), (.insert, [100])] := by
+  intro alg; cases alg <;> rfl
+
+end SimilarVerif.C17
+
+namespace SimilarVerif.C17
+open SimilarVerif Spec
+
+/-- **the slice helper `diff_slices`** (`utilsDiffSlices` = `capture_diff_slices` then `iter_slices` of every op): it
+returns for every algorithm and clock, no returned slice is empty, the slices expand to exactly the items of the
+captured ops, and those items count both inputs consecutively (so the non-Insert slices are the old slice cut into
+consecutive pieces, the non-Delete slices the new one) -/
+theorem slices_helper_total : type_of% @SliceHelper.utilsDiffSlices_total := @SliceHelper.utilsDiffSlices_total
+
+#print axioms slices_helper_total
+
+/-- non-vacuity: `[0,1,2,3]` vs `[0,1,4,3]` -/
+example : ∀ alg : Alg, utilsDiffSlices alg (Env.ofSeqs #[0, 1, 2, 3] #[0, 1, 4, 3]) 4 4 {} =
+    .ok [(.equal, false, 0, 2), (.delete, false, 2, 3), (.insert, true, 2, 3), (.equal, false, 3, 4)] := by
   intro alg; cases alg <;> rfl
 
 end SimilarVerif.C17
